@@ -79,6 +79,11 @@ def cfgOf (j : Json) : Except String Cfg := do
          catCols := cats, mapIssues := rissuesOf (← getVal j "mapIssues"), refs := ← strList j "refs",
          allColumns := ← strList j "allColumns", maskByRow := ← getBool j "maskByRow",
          guardDelay := ← getBool j "guardDelay",
+         colIdx := match j.getObjVal? "colIdx" with
+           | .ok (Json.arr a) => a.toList.map fun v => match v.getNat? with
+             | .ok n => some n
+             | .error _ => none
+           | _ => [],
          kKey := ⟨"SIDECAR_KEY_MISSING:SIDECAR_KEY_MISSING".toList, 10⟩,
          kRef := ⟨"SIDECAR_BRACES_INVALID:INVALID_COLUMN_REF".toList, 1⟩,
          kUnordered := ⟨"ONSETS_UNORDERED:ONSETS_UNORDERED".toList, 10⟩,
@@ -102,6 +107,11 @@ def needs (S : Json) (cfg : Cfg) (T : List Row) : List Json :=
     (rows.flatMap fun t => (["full", "banned"].filterMap fun p => miss p t)) ++
     (pts.flatMap fun t => (["pfull", "markers"].filterMap fun p => miss p t))
 
+/-- the typed column label: a JSON number for an integer label, a JSON string for a name -/
+def labelJson : ColLabel → Json
+  | .name s => jstr s
+  | .idx n => jnat n
+
 def excName : PyExc → String
   | .typeError => "TypeError" | .valueError => "ValueError" | .indexError => "IndexError"
 
@@ -122,7 +132,12 @@ def handle (op : String) (j : Json) : Option (Except String Json) :=
         match validate cfg T with
         | .error e => pure <| jobj (("exc", Json.str (excName e)) :: extra)
         | .ok out => pure <| jobj (("issues", jarr (out.map fun i =>
-            jarr [jstr i.kind, jnat i.sev, jopt jnat i.row, jopt jstr i.col, Json.str (srcName i.src), jstr i.text])) :: extra)
+            jarr [jstr i.kind, jnat i.sev, jopt jnat i.row, jopt jstr i.col, Json.str (srcName i.src), jstr i.text,
+                  jopt labelJson (i.label cfg)])) :: extra)
+  | "c07.concat" => some do
+      let cells ← strList j "cells"
+      pure <| jobj [("same", jbool (sameTree cells)), ("code", jarr ((listCode (concatTrees cells)).map jnat)),
+                    ("balanced", jarr (cells.map fun c => jbool (!Paren.mismatch c)))]
   | "c07.span" => some do
       let cells ← strList j "cells"
       let sp := remapSpan cells (← getNat j "i") (← getNat j "a", ← getNat j "b")
